@@ -53,6 +53,11 @@ checks.update({
    text="For every request of generated histories on SQLite (library and HTTP handlers, incl. the create-client-and-retry path) the storage call sequence is learned, then each call is made to fail before or after taking effect on a restored image of the data directory: the client must get an error, all SQL rows must equal the pre-state (post-state only for a commit that took effect), no transaction may stay open, and follow-up requests must succeed (thorough: second fault in the follow-up).",
    note="Faults are synthetic errors at the public trait boundary; single faults exhaustive, double faults = fault in the request + fault in the follow-up. SQLite-internal I/O error paths are covered by the VFS engine when built."),
 })
+checks.update({
+ "C04": dict(cat="fault_enumeration", tech="runtime monitoring: recording SQLite VFS shim under the real connections; every write/truncate/sync/delete a crash point; process-crash and power-loss images rebuilt from the event log and recovered with the code under test", ref="DESIGN.md §7 C04",
+   text="Histories (library and HTTP handlers, solo and bystander-connection regimes, payloads 10 B..1.5 MB, clients with nil and non-nil chain base) run on SQLite over a VFS shim that logs every I/O of the repository's own connections. At every (sampled when very many) write/truncate/sync/delete the process-crash image and a family of power-loss images (last synced content + none/all/prefix/single-drop/single-keep/random subsets of later writes, unsynced deletes applied or undone, torn sectors in thorough) are opened with the code under test: it must open, pass integrity_check and hold exactly the rows of the state before or after the in-flight request, or the acknowledged state once the request had returned.",
+   note="Power loss is simulated from recorded I/O under a stated file-system model (fsync = per-file barrier that also makes earlier unlinks durable; unsynced writes land in any subset; -shm dropped). Trusted: the shim (about 350 lines of unsafe FFI, exercised under valgrind in the thorough tier when built), the shadow model, SQLite itself."),
+})
 checks.update(json.load(open('/verif/tools/manifest_extra.json')) if __import__('os').path.exists('/verif/tools/manifest_extra.json') else {})
 
 m = {
